@@ -726,6 +726,77 @@ for _fmt, _funcs in (("json", ["eminus.io.json:write_json", "eminus.io.json:read
                         doc=f"BOUNDED: an SCF object saved as {_fmt} and loaded again reproduces energies bit for bit and continues identically (multi-k with ragged bases, smearing, GGA)"))
 
 
+class JsonBackendArrays:
+    """BOUNDED: JSON save / load under BOTH array backends of the package: every array member of a restored Atoms / SCF object has the type it had when it
+    was stored (a NumPy array under NumPy, a tensor under Torch), the values agree bit for bit, and a restored SCF object continues like the stored one."""
+
+    def problems(self):
+        import tempfile
+
+        import eminus
+        from eminus import SCF, Atoms
+        from eminus import backend as xp
+        from eminus.io import read_json, write_json
+
+        bad = []
+        for backend in ("numpy", "torch"):
+            eminus.config.backend = backend
+            try:
+                if eminus.config.backend != backend:
+                    continue  # backend not installed: nothing to check for it
+                eminus.config.verbose = "critical"
+                with tempfile.TemporaryDirectory() as d:
+                    at = Atoms("LiH", [[0.0, 0.0, 0.0], [0.0, 0.0, 3.0]], ecut=3, a=[[7.0, 0.3, 0.0], [0.0, 7.5, 0.2], [0.1, 0.0, 8.0]], unrestricted=True)
+                    at.kpts.kmesh = [2, 1, 1]
+                    at.build()
+                    write_json(at, os.path.join(d, "a.json"))
+                    at2 = read_json(os.path.join(d, "a.json"))
+                    for owner, o1, o2 in (("Atoms", at, at2), ("KPoints", at.kpts, at2.kpts), ("Occupations", at.occ, at2.occ)):
+                        for k, v in vars(o1).items():
+                            if xp.is_array(v) if hasattr(xp, "is_array") else hasattr(v, "shape"):
+                                w = getattr(o2, k, None)
+                                if type(w) is not type(v):
+                                    bad.append(dict(backend=backend, member=f"{owner}.{k}", stored_as=type(v).__name__, restored_as=type(w).__name__))
+                                elif not np.array_equal(np.asarray(xp.to_np(v)), np.asarray(xp.to_np(w))):
+                                    bad.append(dict(backend=backend, member=f"{owner}.{k}", problem="values differ"))
+                    scf = SCF(at, xc="pbe", opt={"pccg": 2}, etol=1e-14, verbose="critical")
+                    scf.run()
+                    write_json(scf, os.path.join(d, "s.json"))
+                    try:
+                        scf2 = read_json(os.path.join(d, "s.json"))
+                        e1 = float(scf.run())
+                        e2 = float(scf2.run())
+                        if e1 != e2:
+                            bad.append(dict(backend=backend, problem="the restored SCF object continues differently", stored=e1, restored=e2))
+                        for ik in range(len(scf.W)):
+                            if type(scf2.W[ik]) is not type(scf.W[ik]):
+                                bad.append(dict(backend=backend, member=f"SCF.W[{ik}]", stored_as=type(scf.W[ik]).__name__, restored_as=type(scf2.W[ik]).__name__))
+                    except Exception as e:  # noqa: BLE001
+                        bad.append(dict(backend=backend, problem="restoring / continuing the SCF object raises", raised=f"{type(e).__name__}: {e}"))
+            finally:
+                eminus.config.backend = "numpy"
+        return bad
+
+    def __call__(self, ob, tier, seed):
+        from pycv.framework import BOUNDED_OK
+
+        try:
+            bad = self.problems()
+        except Exception as e:  # noqa: BLE001
+            bad = [dict(raised=f"{type(e).__name__}: {e}")]
+        if bad:
+            return Result(REFUTED, backend="native", witness=bad[0], replayed=True, replay_info=dict(failing=bad[:5]), detail=f"JSON round trip under the array backends: {bad[0]}")
+        return Result(BOUNDED_OK, backend="native", detail="bounded: Atoms (2 k-points) and an SCF object (PBE, two steps) through JSON under NumPy and Torch: array types and values restored, continued run identical")
+
+    def replay(self, wit):
+        bad = self.problems()
+        return bool(bad), dict(failing=bad[:5])
+
+
+register(Obligation(name="C17.json.arrays_restored_for_the_active_backend", prop=PROP, engine="B", bounded=True, run=JsonBackendArrays(), functions=["eminus.io.json:_custom_object_hook", "eminus.io.json:read_json", "eminus.io.json:write_json"],
+                    budget={"quick": 300, "thorough": 600}, doc="BOUNDED: JSON round trip of Atoms and SCF objects under both array backends: restored arrays have the backend's type, values bit for bit, the continued run is identical"))
+
+
 # =================================================================================================
 # HDF5: lists of arrays with different shapes (one per k-point) - order-preserving for EVERY length
 # =================================================================================================
